@@ -26,8 +26,11 @@ YearEdges == {127, 128, 16383, 16384, 262142}
 OffEdges == {63, 64, -64, -65, 8191, 8192, -8192, -8193}
 U32Edges == {<<0, 127>>, <<0, 128>>, <<0, 16383>>, <<0, 16384>>, <<0, 2097151>>, <<0, 2097152>>, <<0, P28 - 1>>, <<1, 0>>, <<15, P28 - 1>>}
 
+Len64K == {65535, 65536, 65537}         \* around 2^16: buffer-size habits (64 KiB reservations, u16 counters)
 Cases ==
-       {[ty |-> STR, v |-> Str(n)] : n \in LenV}
+       {[ty |-> STR, v |-> Str(n)] : n \in LenV \cup Len64K}
+  \cup {[ty |-> K("vecu8"), v |-> Run(n)] : n \in Len64K}
+  \cup {[ty |-> K("bytes"), v |-> Run(n)] : n \in Len64K}
   \cup {[ty |-> K("dstr"), v |-> Str(n)] : n \in LenV}
   \cup {[ty |-> K("vecu8"), v |-> Run(n)] : n \in LenU}
   \cup {[ty |-> K("bytes"), v |-> Run(n)] : n \in LenU}
